@@ -265,8 +265,52 @@ impl Sub for Spectrum {
     }
 }
 
+/// The same low-degree polynomial pair, zero-padded, transformed and multiplied in several lengths
+/// one after the other on one thread: every call must be right whatever was transformed before
+/// (cached plans, memoised transforms, reused scratch space).
+#[derive(Clone, Debug, Serialize, Deserialize)]
+pub struct SeqCase {
+    a_low: Vec<i16>,
+    b_low: Vec<i16>,
+    dims: Vec<u32>,
+}
+
+pub struct Sequence;
+
+impl Sub for Sequence {
+    type Case = SeqCase;
+    fn name(&self) -> &'static str {
+        "ntt_same_operands_sequence"
+    }
+    fn strategy(&self, _env: &Env) -> BoxedStrategy<SeqCase> {
+        let low = proptest::collection::vec(0i16..Q as i16, 1..=8);
+        (low.clone(), low, proptest::collection::vec(3u32..=10, 2..=5)).prop_map(|(a_low, b_low, dims)| SeqCase { a_low, b_low, dims }).boxed()
+    }
+    fn check(&self, c: &SeqCase, st: &mut Stats) -> Result<(), Fail> {
+        if c.a_low.len() > 8 || c.b_low.len() > 8 || c.dims.iter().any(|&l| !(3..=10).contains(&l)) || c.a_low.iter().chain(c.b_low.iter()).any(|&x| x < 0 || x as i64 >= Q) {
+            return Ok(());
+        }
+        for (step, &l) in c.dims.iter().enumerate() {
+            let n = 1usize << l;
+            let mut a = vec![0i16; n];
+            let mut b = vec![0i16; n];
+            a[..c.a_low.len()].copy_from_slice(&c.a_low);
+            b[..c.b_low.len()].copy_from_slice(&c.b_low);
+            let (ta, tb) = (ntt(&a), ntt(&b));
+            ensure!(intt(&ta) == a, "ntt:inverse-in-sequence", "call {} (n = {}, after lengths {:?}): intt(ntt(a)) != a for a low-degree a", step, n, &c.dims[..step]);
+            let prod = intt(&ntt_hadamard_mul(&ta, &tb));
+            let want = zq::negacyclic_mul(&to_i64(&a), &to_i64(&b));
+            ensure!(to_i64(&prod) == want, "ntt:product-in-sequence", "call {} (n = {}, after lengths {:?}): the product of two low-degree polynomials differs from the schoolbook product", step, n, &c.dims[..step]);
+        }
+        st.count("same_operand_sequences");
+        st.nontrivial(&(&c.a_low, &c.b_low, &c.dims));
+        st.sample("sequence", || json!({"a_low": c.a_low, "b_low": c.b_low, "lengths": c.dims.iter().map(|l| 1usize << l).collect::<Vec<_>>()}));
+        Ok(())
+    }
+}
+
 const META: Meta = Meta {
-    rule: "complete enumeration of both 1024-entry twiddle tables against psi^(+-bitrev10(i)) with psi := table[512] (checked to satisfy psi^1024 = -1), of the eleven stored n^-1 constants, and of all 2047 basis vectors X^i for n = 1..1024 (ntt(X^i)[k] = r_k^i with r_k = ntt(X)[k], r_k^n = -1, r_k pairwise distinct; round trip); proptest operand pairs for n = 1..1024 (uniform, sparse, monomial, constant q-1, edge residues) compared with the schoolbook negacyclic product in i64, plus split/merge identities; structured transform-domain vectors (aligned blocks and half-waves of 0, q-1 and other extreme residues, two-valued patterns) through the inverse transform, checked by ntt(intt(F)) = F and an independent interpolation. Non-trivial = n >= 2 and both operands non-zero (hash-distinct); enumerated items are distinct by construction.",
+    rule: "complete enumeration of both 1024-entry twiddle tables against psi^(+-bitrev10(i)) with psi := table[512] (checked to satisfy psi^1024 = -1), of the eleven stored n^-1 constants, and of all 2047 basis vectors X^i for n = 1..1024 (ntt(X^i)[k] = r_k^i with r_k = ntt(X)[k], r_k^n = -1, r_k pairwise distinct; round trip); proptest operand pairs for n = 1..1024 (uniform, sparse, monomial, constant q-1, edge residues) compared with the schoolbook negacyclic product in i64, plus split/merge identities; structured transform-domain vectors (aligned blocks and half-waves of 0, q-1 and other extreme residues, two-valued patterns) through the inverse transform, checked by ntt(intt(F)) = F and an independent interpolation; the same low-degree operands zero-padded to 2-5 different lengths in sequence on one thread. Non-trivial = n >= 2 and both operands non-zero (hash-distinct); enumerated items are distinct by construction.",
     assumptions: &[
         "oracle: refimpl::zq schoolbook product and modular exponentiation",
         "the hook wrappers convert canonical residues without reducing them",
@@ -276,7 +320,7 @@ const META: Meta = Meta {
 pub fn run(env: &Env, replay: Option<&Path>) -> i32 {
     let mut report = Report::new();
     let tables = Tables::new();
-    let subs: [&dyn DynSub; 4] = [&tables, &Basis, &Product, &Spectrum];
+    let subs: [&dyn DynSub; 5] = [&tables, &Basis, &Product, &Spectrum, &Sequence];
     if let Some(p) = replay {
         if let Err(e) = replay_file(env, &subs, p, &mut report) {
             eprintln!("harness: {}", e);
@@ -292,5 +336,6 @@ pub fn run(env: &Env, replay: Option<&Path>) -> i32 {
     report.notes.push("tables, n^-1 constants and basis vectors are enumerated completely; operand pairs are sampled, so exhaustive stays false for the property as a whole".into());
     drive(env, &Product, env.tier.pick(100_000, 1_000_000), &mut report);
     drive(env, &Spectrum, env.tier.pick(100_000, 1_000_000), &mut report);
+    drive(env, &Sequence, env.tier.pick(20_000, 400_000), &mut report);
     finish(env, report, &META)
 }
